@@ -172,6 +172,37 @@ def programmed_post(spec) -> float:
     return float(spec[i]) if len(spec) > i else 0.0
 
 
+def wf_duration(wspec) -> int:
+    """Duration written in a waveform spec (no library object involved)."""
+    k = wspec[0]
+    if k == "+":
+        return sum(wf_duration(x) for x in wspec[1:])
+    if k == "X":
+        return len(wspec[1])
+    return int(wspec[1])
+
+
+def programmed_duration(spec) -> int:
+    """Duration written in a pulse spec."""
+    k = spec[0]
+    return int(spec[1]) if k in ("c", "b", "r") else wf_duration(spec[1])
+
+
+def programmed_phase(spec):
+    """Phase written in a pulse spec (None when it has to be read from the built pulse: arbitrary phase waveforms other
+    than constant)."""
+    k = spec[0]
+    if k in ("c", "b"):
+        return float(spec[4])
+    if k == "r":
+        return float(spec[5])
+    if k == "P":
+        return float(spec[3])
+    if k == "A" and spec[2][0] == "C":
+        return float(spec[2][2])  # a constant phase waveform (a ramp's offset depends on how the detuning is discretised)
+    return None
+
+
 class World:
     def __init__(self, spec: dict):
         self.spec = copy.deepcopy(spec)
